@@ -1,6 +1,6 @@
 (* C13 — every persisted/wire value round-trips; size bounds hold.
    Statements only: each theorem is closed by [exact <lemma>]; proofs live in Proofs/. *)
-From DB Require Import Base.Bytes Model.CodecEntry Proofs.CodecEntry.
+From DB Require Import Base.Bytes Base.CRC32 Model.CodecEntry Proofs.CodecEntry Model.Frame Proofs.Frame.
 Open Scope N_scope.
 
 (* raftpb.Entry (colfer codec): decode (encode e) = e, consuming exactly the encoding *)
@@ -26,3 +26,56 @@ Print Assumptions entry_encode_wf_bytes.
 Example entry_wf_witness :
   wf_entryb (mkEntry (2 ^ 49) (2 ^ 49 - 1) (-1)%Z (2 ^ 64 - 1) 0 127 128 [1; 2; 255]) = true.
 Proof. vm_compute. reflexivity. Qed.
+
+(* ---------------------------------------------------------------------------
+   Transport frame (internal/transport/tcp.go): magic, 18-byte header with self-CRC,
+   payload CRC.  [read_frame enc s] is readMagicNumber followed by readMessage on a
+   connection that still holds the bytes [s]; [write_message h p enc] are the bytes
+   writeMessage puts on the wire. *)
+
+(* requestHeader: decode (encode h) = h for the two legal methods *)
+Theorem header_roundtrip : forall h,
+  wf_header h -> method_ok (h_method h) = true -> decode_header (encode_header h) = Some h.
+Proof. exact decode_encode_header. Qed.
+Print Assumptions header_roundtrip.
+
+(* what writeMessage writes is delivered by the reader with exactly the written
+   payload, and the stream continues right behind it (any [rest]).  The empty
+   payload is excluded because readMessage rejects size 0. *)
+Theorem frame_roundtrip : forall h0 p enc rest,
+  method_ok (h_method h0) = true -> h_crc h0 < 2 ^ 32 ->
+  p <> [] -> wf_bytes p -> nlen p < 2 ^ 64 ->
+  read_frame enc (write_message h0 p enc ++ rest) = Delivered (write_header h0 p enc) p rest.
+Proof. exact frame_roundtrip_proved. Qed.
+Print Assumptions frame_roundtrip.
+
+(* a byte stream is delivered iff it is magic ++ 18 header bytes ++ payload ++ rest with:
+   header CRC field = crc32 of the 18 bytes with that field zeroed, method raft or
+   snapshot, size field = |payload| <> 0, and (unless encrypted) payload CRC field =
+   crc32 payload. *)
+Theorem frame_accept_iff_crcs_match : forall enc s h p rest,
+  read_frame enc s = Delivered h p rest <->
+  exists hb, s = magic ++ hb ++ p ++ rest /\
+    (length hb = hdr_len /\
+     be_dec (slice off_hcrc 4 hb) = crc32 (zero_hcrc hb) /\
+     method_ok (be_dec (slice off_method 2 hb)) = true /\
+     h = mkHeader (be_dec (slice off_method 2 hb)) (be_dec (slice off_size 8 hb))
+                  (be_dec (slice off_crc 4 hb))) /\
+    h_size h = nlen p /\ p <> [] /\ (enc = true \/ crc32 p = h_crc h).
+Proof. exact read_frame_iff. Qed.
+Print Assumptions frame_accept_iff_crcs_match.
+
+(* truncation anywhere inside a frame => not delivered *)
+Theorem frame_truncated_rejected : forall enc s h p rest k,
+  read_frame enc s = Delivered h p rest ->
+  (k < 2 + hdr_len + length p)%nat ->
+  forall h' p' rest', read_frame enc (firstn k s) <> Delivered h' p' rest'.
+Proof. exact frame_truncated_rejected_proved. Qed.
+Print Assumptions frame_truncated_rejected.
+
+(* non-vacuity: a concrete frame is delivered, its 1-byte-shorter prefix is not *)
+Example frame_witness :
+  let f := write_message (mkHeader raft_type 0 0) [1; 2; 3] false in
+  read_frame false (f ++ [9]) = Delivered (mkHeader raft_type 3 (crc32 [1; 2; 3])) [1; 2; 3] [9] /\
+  read_frame false (firstn 22 f) = IOErr.
+Proof. vm_compute. split; reflexivity. Qed.
